@@ -26,15 +26,6 @@ def unesc(s):
     return s.replace("\\n", "\n").replace("\\t", "\t").replace("\\\\", "\\")
 
 
-KNOWN_EVALFN = re.compile(r"^(catch|catch-unrest) kind=catch-eval-runtime ")
-
-
-def classify_known(anoms):
-    """evalfunction-no-restore: ONLY the host-catcher runs whose nested failure came out of
-    zygo.EvalFunction's Run (kind catch-eval-runtime) may differ from the clean run."""
-    return all(KNOWN_EVALFN.match(a) for a in anoms)
-
-
 def replay_obj(failat, sources, kind, detail, extra=None):
     o = {"kind": kind, "failat": failat, "texts": [unesc(t) for t in sources], "names": ["x", "y", "f", "zz1"],
          "detail": detail,
@@ -80,7 +71,7 @@ def main(argv):
     ]
 
     cases = c.harness("c05")
-    prop, corr, known = [], [], 0
+    prop, corr = [], []
     stats = {"sessions_compared_with_model": 0, "texts_compared_with_model": 0, "sessions_without_model": 0,
              "model_declined_or_out_of_fuel_texts": 0, "budget_texts": 0}
     if cases:
@@ -99,12 +90,9 @@ def main(argv):
                     m = re.match(r"failat=(\d+)", inp)
                     failat = int(m.group(1)) if m else 0
                     if anoms:
-                        if classify_known(anoms) and c.known_finding("evalfunction-no-restore", "case %s: %s" % (cid, anoms[0][:160])):
-                            known += 1
-                        else:
-                            bad = [x for x in anoms if not KNOWN_EVALFN.match(x)] or anoms
-                            prop.append((len(a[4]) if len(a) > 4 else 0, replay_obj(failat, sources, "property failure: " + bad[0].split(" ")[0],
-                                                                                     bad[:6], {"case": cid, "implementation": impl[:1500]})))
+                        # no known finding is listed for C05: every anomaly is a violation
+                        prop.append((len(a[4]) if len(a) > 4 else 0, replay_obj(failat, sources, "property failure: " + anoms[0].split(" ")[0],
+                                                                                 anoms[:6], {"case": cid, "implementation": impl[:1500]})))
                     model = b[1]
                     if model == "SKIP":
                         stats["sessions_without_model"] += 1
@@ -149,7 +137,6 @@ def main(argv):
     c.coverage.update(stats)
     c.coverage["property_failures"] = len(prop)
     c.coverage["correspondence_failures"] = len(corr)
-    c.coverage["known_finding_cases"] = known
 
     # report: smallest witnesses first, one per anomaly class (at most 4)
     seen = set()
